@@ -293,6 +293,8 @@ impl PhoneticSuggestion {
 
                         // Save this for future reuse.
                         selections.insert(string.word().to_string(), selected.to_string());
+                        // The selection is made now, a longer suffix must not be added to it again.
+                        break;
                     }
                 }
             }
